@@ -259,6 +259,8 @@ def call_builtin(fr, f, args: list, kwargs: dict, node: ast.AST | None) -> Any:
         raise AnalysisError(f"sorted over {items!r}")
     if name == "reversed":
         return list(reversed(fr.iterate(args[0])))
+    if name == "enumerate" and isinstance(args[0], SStr):
+        return [tuple(x) for x in pai.sstr_chars(args[0])]
     if name == "enumerate":
         start = args[1] if len(args) > 1 else kwargs.get("start", 0)
         return [(i + start, x) for i, x in enumerate(fr.iterate(args[0]))]
